@@ -1527,6 +1527,9 @@ class BootstrapElectionModel(BaseElectionModel):
             aggregate_temp_column_name = "-".join(aggregate)
             all_units[aggregate_temp_column_name] = all_units[aggregate].agg("_".join, axis=1)
             dummies = pd.get_dummies(all_units[aggregate_temp_column_name])
+            # the rows of the aggregate tables are sorted by the aggregate columns, the dummies by the joined label. The two
+            # orders differ when labels have different lengths (ie. districts 1 and 10), so order the groups like the rows
+            dummies = dummies[all_units.drop_duplicates(aggregate).sort_values(aggregate)[aggregate_temp_column_name]]
         else:
             # since aggregate is of length zero we can grab the first element
             dummies = pd.get_dummies(all_units[aggregate[0]])
@@ -1678,6 +1681,8 @@ class BootstrapElectionModel(BaseElectionModel):
             aggregate_temp_column_name = "-".join(aggregate)
             all_units[aggregate_temp_column_name] = all_units[aggregate].agg("_".join, axis=1)
             dummies = pd.get_dummies(all_units[aggregate_temp_column_name])
+            # order the groups like the rows of the aggregate tables (see get_aggregate_predictions)
+            dummies = dummies[all_units.drop_duplicates(aggregate).sort_values(aggregate)[aggregate_temp_column_name]]
         else:
             # since aggregate is of length one, we can grab the first element
             dummies = pd.get_dummies(all_units[aggregate[0]])
